@@ -166,6 +166,25 @@ CODEC_TB = ["bincode 2 wire format (little endian, fixed-int) modelled for the t
             "allocation failure on absurd length prefixes (process abort) is outside the model; cannot occur for strict prefixes or foreign magic"]
 
 
+def csv_classify(line, impl, mobs, extra):
+    flags = pflags(extra)
+    kind = flags.get("KIND", "?")
+    tags = ["kind=" + kind, "impl=" + impl.split()[0]]
+    info = {"tags": tags, "nontrivial": kind in ("wellformed", "pinned") and impl.startswith("ok ") and not impl.startswith("ok 0")}
+    if kind in ("wellformed",):
+        exp = flags.get("EXPECT", "").replace("_", " ")
+        if impl != exp:
+            info["prop_fail"] = "lex-row-not-preserved"
+            info["why"] = "a well-formed lexicon CSV did not yield exactly its rows (surface unquoted, numbers, raw feature remainder)"
+    if kind == "pinned" and not impl.startswith("ok"):
+        info["prop_fail"] = "lex-eof-variant"
+        info["why"] = "missing final newline / blank line variant of a well-formed file is not accepted"
+    if kind == "quote" and flags.get("RT") == "0":
+        info["prop_fail"] = "quote-unquote"
+        info["why"] = "parse_csv_row(quote_csv_cell(x)) != [x]"
+    return info
+
+
 def simple_streams(name, nq, nt, classify):
     def streams(tier, seed):
         n = nq if tier == "quick" else nt
@@ -180,6 +199,23 @@ LATTICE_TB = [
 ]
 
 PROPS = {
+    "C11": {
+        "modules": ["Vibrato.Props.C11"],
+        "theorems": ["Vibrato.C11.read_cell_delim", "Vibrato.C11.read_cell_term", "Vibrato.C11.read_cell_eof",
+                     "Vibrato.C11.parse_csv_rows", "Vibrato.C11.parse_csv_rows_pinned", "Vibrato.C11.eof_variants_agree",
+                     "Vibrato.C11.parse_csv_joined", "Vibrato.C11.homographs_kept_entries",
+                     "Vibrato.C11.quote_csv_cell_eq", "Vibrato.C11.unquote_quote",
+                     "Vibrato.C11.witness_eof_after_fourth_comma", "Vibrato.C11.witness_trailing_blank",
+                     "Vibrato.C11.witness_trailing_comma"],
+        "streams": simple_streams("csv", 1500, 40000, csv_classify),
+        "rule": "50% well-formed lexicon CSVs (quoted/unquoted cells, embedded commas/quotes/newlines, multi-byte text, "
+                "empty surfaces, extreme numbers, blank lines, CRLF, with/without final newline; the generator knows the "
+                "expected rows), 20% single-edit corruptions incl. ~4096-byte fields, parse_csv_row, quote_csv_cell and the "
+                "raw csv-core reader on byte soup; non-trivial = a well-formed file with at least one row",
+        "trusted_base": ["csv-core 0.1 reader/writer ported (Model/CsvCore.lean) and compared call by call with the crate",
+                         "postings (homograph ids) are covered by the tokenisation streams, not by this stream"],
+        "assumptions": [],
+    },
     "C05": {
         "modules": ["Vibrato.Props.C05"],
         "theorems": ["Vibrato.C05.decode_encode", "Vibrato.C05.reread_equal", "Vibrato.C05.trailing_ignored",
